@@ -811,6 +811,18 @@ func RelIDs(t *rapid.T, r jsonapi.Rel, label string, maxN int, distinct bool) an
 	}
 
 	n := rapid.IntRange(0, maxN).Draw(t, label+"-n")
+
+	// Now and then a long list (more IDs than a small fixed buffer holds), in
+	// no particular order.
+	if rapid.IntRange(0, 39).Draw(t, label+"-long") == 0 {
+		ids := make([]string, rapid.SampledFrom([]int{31, 32, 33, 34, 40, 65}).Draw(t, label+"-nlong"))
+		for i := range ids {
+			ids[i] = fmt.Sprintf("k%02d", (i*7)%len(ids))
+		}
+
+		return ids
+	}
+
 	ids := make([]string, 0, n)
 	seen := map[string]bool{}
 
@@ -912,6 +924,9 @@ func IncoherentSchema(t *rapid.T) *SchemaSpec {
 			specs[i].Attrs = []jsonapi.Attr{{Name: "x", Type: jsonapi.AttrTypeString}}
 			used[i]["x"] = true
 		}
+
+		// (a bare Type{Name: ...} literal has no maps at all)
+		specs[i].NilMaps = rapid.Bool().Draw(t, "nilmaps")
 	}
 
 	anyType := func(label string) string {
